@@ -239,3 +239,30 @@ def kmeans_init(draw, X, k, scale, corner=False):
         init = X[idx] + 0.0
         return {"method": "array", "init": init, "seed": 0, "corner": True}
     return {"method": method, "init": None, "seed": integer(draw, 0, 2**16)}
+
+
+def fa_case(draw, jfa=None, max_sessions=5, maxC=3, maxF=3, d_alive=None):
+    """UBM + U, V, D with generated relative scales + a list of enrolment/probe sessions."""
+    C, F = dims(draw, maxC=maxC, maxF=maxF)
+    if big():
+        C, F = min(C, 4), min(F, 4)
+    r = rng(draw)
+    scales = feature_scales(draw, F, lo=-1, hi=2)
+    ubm = gmm_params(draw, C, F, scales=scales, kmax=5.0)
+    sd = np.sqrt(ubm["variances"]).ravel()
+    jfa = boolean(draw) if jfa is None else jfa
+    rU = integer(draw, 1, 3)
+    rV = integer(draw, 1, 3) if jfa else 0
+    u_scale = 10.0 ** choice(draw, [0, -1, 0, 1, -2])
+    v_scale = 10.0 ** choice(draw, [0, -1, 0, 1, -2])
+    d_exp = choice(draw, [0, 0, -1, 1, -3, -10]) if d_alive is None else (choice(draw, [0, 0, -1, 1]) if d_alive else -10)
+    d_scale = 10.0 ** d_exp
+    U = sd[:, None] * u_scale * r.normal(0, 1, (C * F, rU))
+    V = sd[:, None] * v_scale * r.normal(0, 1, (C * F, rV)) if jfa else None
+    D = sd * d_scale * np.exp(r.uniform(-1, 1, C * F))
+    H = integer(draw, 1, max_sessions)
+    sessions = [fractional_stats(draw, C, F, ubm["means"], ubm["variances"], n_frames=integer(draw, 1, 15), r=r,
+                                 zero_prob=choice(draw, [0.0, 0.0, 0.3]))
+                for _ in range(H)]
+    return {"ubm": ubm, "jfa": bool(jfa), "U": U, "V": V, "D": D, "sessions": sessions,
+            "u_scale": u_scale, "v_scale": v_scale, "d_exp": int(d_exp)}
